@@ -229,6 +229,7 @@ def build(app):
         note('fixed:query_on_entry', sorted(rq.query.items()))
         rq.cookies['seen-by'] = hm
         rq.query['seen-by'] = hm
+        rq.url_args['seen_by'] = hm         # (this handler takes no arguments)
         note('fixed:cookie', rq.cookies.get('c'))
         note('fixed:auth', rq.auth)
         if rq.method == 'POST':
@@ -256,6 +257,8 @@ def build(app):
         note('public:kw', dict(kw))
         note('public:url_args', dict(app.request.url_args))
         note('public:ext', getattr(app.request, 'trace', None))
+        # the URL arguments belong to this request: what the handler parks there must not reach a later one
+        app.request.url_args['seen_by'] = app.request.headers.get('X-M') or '?'
         return 'public'
 
     @app.route('/session')
